@@ -104,7 +104,7 @@ static Bytes ref_unquote(const std::string& s) {
 
 // FIPS 180-4 SHA-1
 static inline uint32_t rotl(uint32_t x, int n) { return (x << n) | (x >> (32 - n)); }
-static void sha1_block(uint32_t H[5], const unsigned char* p) {
+__attribute__((no_sanitize_address)) static void sha1_block(uint32_t H[5], const unsigned char* p) {
 	uint32_t W[80];
 	for (int t = 0; t < 16; t++) W[t] = ((uint32_t)p[4 * t] << 24) | ((uint32_t)p[4 * t + 1] << 16) | ((uint32_t)p[4 * t + 2] << 8) | p[4 * t + 3];
 	for (int t = 16; t < 80; t++) W[t] = rotl(W[t - 3] ^ W[t - 8] ^ W[t - 14] ^ W[t - 16], 1);
@@ -120,10 +120,9 @@ static void sha1_block(uint32_t H[5], const unsigned char* p) {
 	}
 	H[0] += a; H[1] += b; H[2] += c; H[3] += d; H[4] += e;
 }
-static Bytes ref_sha1(const Bytes& m) {
+static Bytes ref_sha1(const unsigned char* p, size_t n) {
 	uint32_t H[5] = { 0x67452301, 0xefcdab89, 0x98badcfe, 0x10325476, 0xc3d2e1f0 };
-	const unsigned char* p = (const unsigned char*)m.data();
-	size_t n = m.size(), i = 0;
+	size_t i = 0;
 	for (; i + 64 <= n; i += 64) sha1_block(H, p + i);
 	unsigned char tail[128];
 	memset(tail, 0, sizeof tail);
@@ -139,6 +138,7 @@ static Bytes ref_sha1(const Bytes& m) {
 	for (int k = 0; k < 5; k++) { o += (char)(H[k] >> 24); o += (char)(H[k] >> 16); o += (char)(H[k] >> 8); o += (char)H[k]; }
 	return o;
 }
+static Bytes ref_sha1(const Bytes& m) { return ref_sha1((const unsigned char*)m.data(), m.size()); }
 
 // deterministic contents per length: 0 zeros, 1 0xFF, 2 counting pattern, 3 fixed pseudo-random, 4 pseudo-random without NUL bytes
 enum { NKIND = 4 };
@@ -159,17 +159,21 @@ static Bytes content(size_t len, int kind) {
 // ------------------------------------------------------------------------------------------------
 // plumbing: counters, flood control, sanitizer oracle, isolation of memory-corrupting failures
 // ------------------------------------------------------------------------------------------------
-static int C_EVAL, C_DISTINCT, C_RESTARTS, C_SKIPPED;
+static int C_EVAL, C_DISTINCT, C_RESTARTS, C_SKIPPED, C_SKIP_POISON;
 static int W_TAIL[3], W_WS, W_WS_PAD, W_LT4, W_LEFTOVER, W_PADONLY, W_PADMID, W_JUNK, W_BADRES_EMPTY, W_BADRES_NONEMPTY, W_NLT;
 static int W_HEX_ODD, W_HEX_EVEN, W_HEX_ODD7, W_HEX_NONHEX, W_HEX_VALID;
 static int W_URL_ESC, W_URL_PLAIN, W_URL_MODE, W_URL_MALFORMED, W_Q_EMPTYV, W_Q_TWO, W_Q_SPECIAL;
 static int W_SHA_1BLK, W_SHA_2BLK, W_SHA_EDGE, W_SHA_DIRECT, W_SHA_LARGE;
 static int N_URL_STD, N_B64_LARGE;
+// witnesses of the extensions (coverage review): fixed-size Array_ overloads, bytes >= 0x80 / control bytes in the decoders, whitespace with an
+// explicit length, URL texts beyond the inline String buffer, larger dictionaries, decoder values on mixed-case text, messages >= 256 MiB, oracle self-test
+static int W_ARRN, W_ARR20, W_B64_HI, W_B64_CTL, W_HEX_HI, W_HEX_CTL, W_WS_N, W_WS_N4, W_URL_LONG, W_URL_IN16, W_Q_3, W_Q_LONGV, W_HEX_MIXED, W_URL_WELL, W_URL_LOWER;
+static int W_SHA_HUGE, W_SHA_HIGHWORD, W_SELF_READ, W_SELF_WRITE, W_SELF_POISON, W_SELF_GUARD;
 
 // One defect fails on millions of enumerated inputs: the first few failures of each class (counted across all processes in
 // shared memory) are written out as violations, further ones of the same class are only counted ("failures.<sig>").
-static const char* SIGS[] = { "b64_encode", "b64_decode", "b64_ws", "b64_neg_length", "b64_oob", "b64_explicit_len", "hex_encode", "hex_decode", "hex_neg_length", "hex_oob",
-                              "url_roundtrip", "url_oob", "query_roundtrip", "sha1", "sha_oob", "crash" };
+static const char* SIGS[] = { "b64_encode", "b64_decode", "b64_ws", "b64_neg_length", "b64_oob", "b64_explicit_len", "hex_encode", "hex_decode", "hex_decode_upper", "hex_neg_length", "hex_oob",
+                              "url_roundtrip", "url_decode_value", "url_oob", "query_roundtrip", "sha1", "sha1_huge_message", "sha_oob", "crash" };
 enum { NSIGS = sizeof SIGS / sizeof *SIGS, PER_SIG = 4 };
 static int C_SIG[NSIGS];
 static void bad(const char* sig, const std::string& desc, const std::string& kase) {
@@ -190,8 +194,9 @@ enum Form { F_ENCODE, F_B64_STRING, F_B64_CHARP, F_B64_N_NUL, F_B64_N_TIGHT, F_H
 static const char* FORM_NAME[NFORMS] = { "encodeBase64/encodeHex", "decodeBase64(String)", "decodeBase64(char*)", "decodeBase64(char*, n < strlen)", "decodeBase64(unterminated buffer, n)",
                                          "decodeHex(even length)", "decodeHex(odd length)", "Url::encode/decode", "Url::params/parseQuery", "SHA1::hash" };
 enum { FORM_LIMIT = 40 };
-struct Iso { volatile uint64_t idx; char kase[600]; char sig[64]; };
-struct IsoShared { Iso iso[80]; volatile uint32_t form_poison[NFORMS]; };
+struct Iso { volatile uint64_t idx; char kase[1800]; char sig[64]; };
+enum { MAXZERO = 16 };
+struct IsoShared { Iso iso[80]; volatile uint32_t form_poison[NFORMS]; unsigned char zref[MAXZERO][20]; volatile uint64_t zlen[MAXZERO]; };
 static IsoShared* SH;
 static bool g_poisoned = false;
 static int g_form = 0;
@@ -232,7 +237,7 @@ static void setsig(const char* crash_sig) { vf::cur_sig(crash_sig); if (vf::in_w
 // may this form be exercised now?
 static bool form_on(Form f) {
 	if (vf::opt.replay) return true;
-	if (g_poisoned) return false; // this process already saw a memory-corrupting failure: it only winds down
+	if (g_poisoned) { vf::add(C_SKIP_POISON); return false; } // this process already saw a memory-corrupting failure: it only winds down (the rest of the case is counted, not run)
 	if (SH->form_poison[f] >= FORM_LIMIT) { vf::add(C_SKIPPED); return false; }
 	g_form = f;
 	return true;
